@@ -19,11 +19,11 @@ RULE = ("Coq: Properties/C21.v (dbg_transparent over Scope.v / Refactor.v: wrapp
 META = {
     "technique": "Coq proof over the reference semantics of Scope.v + property-directed search on the binary at every "
                  "expression position / annotatable position",
-    "level_text": ("Coq theorem dbg_transparent (and its converse dbg_transparent_back): for every program of the model "
-                   "language and every position, if the original program ends with result r having produced the events "
-                   "out, the wrapped program ends with the same r and its events are out with dbg lines inserted (same "
-                   "stdout, stderr only gains lines), and vice versa; so it also diverges exactly when the original "
-                   "does. add-type-annotation is covered by the search on the binary only (parse, no new check errors, "
+    "level_text": ("Coq theorem dbg_transparent: for every program of the model language (Scope.v) and every position, if "
+                   "the original program ends (value or Garden error) with result r having produced the events out, the "
+                   "wrapped program ends with the same r and its events are out with dbg lines inserted (same stdout, "
+                   "stderr only gains lines). The converse direction (the wrapped program ends => the original ends) is "
+                   "not proved. add-type-annotation is covered by the search on the binary only (parse, no new check errors, "
                    "same run)."),
     "level_note": ("Trusted: Coq kernel; the hand-written model Scope.v/Refactor.v (tied to the evaluator by differential "
                    "execution in C19's driver: Scope.run vs garden on generated programs, incl. dbg lines); hook ops run / "
@@ -40,6 +40,12 @@ TRUSTED = [
 ]
 
 STMT_LIKE = ("let", "assign", "while", "for")
+
+
+def dbg_values(stderr):
+    """The values of the debug lines (`[file:line:col] source //-> value`); positions and the quoted source text
+    legitimately change when an expression is wrapped, the values and their order must not."""
+    return [l.rsplit("//-> ", 1)[1] for l in stderr.splitlines() if "//-> " in l]
 
 
 def is_subseq(a, b):
@@ -90,7 +96,7 @@ def search_dbg(ctx, exe, progs, per_prog):
         elif r0[:3] != r1[:3]:
             viol("C21:dbg-changes-behaviour:" + m["kind"], "stdout/result differ: %s vs %s" % (r0[:3], r1[:3]),
                  observed=out, original_run=r0[:3], wrapped_run=r1[:3])
-        elif not is_subseq(r0[3].splitlines(), r1[3].splitlines()):
+        elif not is_subseq(dbg_values(r0[3]), dbg_values(r1[3])) or len(dbg_values(r1[3])) <= len(dbg_values(r0[3])) - 1:
             viol("C21:dbg-stderr-lost-lines:" + m["kind"], "stderr of the wrapped program lost or reordered lines",
                  observed=out, original_stderr=r0[3], wrapped_stderr=r1[3])
 
@@ -203,9 +209,9 @@ def run(ctx):
         return
     rng = ctx.rng
     fast = R.hook_supported(exe)
-    n = (400 if ctx.thorough else 60) if fast else (60 if ctx.thorough else 14)
+    n = (400 if ctx.thorough else 16) if fast else (60 if ctx.thorough else 8)
     progs = [R.gen_program(rng, size=6) for _ in range(n)]
-    search_dbg(ctx, exe, progs, 10 ** 6 if fast else 25)
+    search_dbg(ctx, exe, progs, (10 ** 6 if ctx.thorough else 40) if fast else 25)
     search_annot(ctx, exe, progs)
 
 
